@@ -92,7 +92,7 @@ def run(res, pid):
                  "a stream pipe's Send whose write failed did not return the error, or released the message although it reported failure (the sender "
                  "protocols release or re-queue it themselves: the buffer returns to the pool while still in use): (ipc, body length, error returned, releases by the pipe)"),
                 ("late_cases", items(text, "late_cases"), "bad_late",
-                 "a connection handed to a closed handshaker / websocket listener (Close ran between the caller's check and the registration) was left open, or closing a second listener of an address unregistered the first one, or connections that stayed silent before their handshake (raw connections to the listener's address: no TLS hello, no HTTP request, no SP header) kept the next peer from connecting, or a pipe accepted on a wildcard port reported another address than its listener's bound one, or an inproc Dial parked for an accepter stayed parked after its listener was closed, or a listener whose Listen had failed to bind panicked or hung on a later call, or a socket closed while its pipe's transport write was stalled (the peer not reading, 32 MB queued) did not release the pipe, "
+                 "a connection handed to a closed handshaker / websocket listener (Close ran between the caller's check and the registration) was left open, or closing a second listener of an address unregistered the first one, or connections that stayed silent before their handshake (raw connections to the listener's address: no TLS hello, no HTTP request, no SP header) kept the next peer from connecting, or a connection whose handshake completed while Socket.Close was running stayed open, or a pipe accepted on a wildcard port reported another address than its listener's bound one, or an inproc Dial parked for an accepter stayed parked after its listener was closed, or a listener whose Listen had failed to bind panicked or hung on a later call, or a socket closed while its pipe's transport write was stalled (the peer not reading, 32 MB queued) did not release the pipe, "
                  "or the registering call never returned: (what, first flag, second flag) = for Start: (connection closed, -); for the websocket upgrade: (ServeHTTP returned, connection closed)")):
             bad = core.parse_nlist(core.parse_printed(out, bname))
             if bad is None:
